@@ -2,6 +2,7 @@ import MypyVerif.Proofs.LayoutSide
 import MypyVerif.Proofs.LayoutFS
 import MypyVerif.Proofs.LayoutDir
 import MypyVerif.Proofs.LayoutPkg
+import MypyVerif.Gen.LayoutConsts
 /-!
 # C18 — files and module names map to each other consistently
 
@@ -10,6 +11,29 @@ not), every option combination (`namespace_packages`, `explicit_package_bases`, 
 every list of command-line arguments.
 -/
 namespace Layout
+
+/-! ## the constant tables of the code (regenerated from `/repo` by translate/c18consts.py on every check)
+
+The two implementations share a handful of tables; the model has one copy of each.  These obligations break when
+the code changes a table — in particular when one of the two directory walkers skips a name the other does not. -/
+
+def sameSet (a b : List Name) : Bool := a.all (b.contains ·) && b.all (a.contains ·)
+
+/-- PYTHON_EXTENSIONS is `.pyi` before `.py` (stub preference), and find_sources.PY_EXTENSIONS is derived from it -/
+theorem gen_py_extensions :
+    Gen.pythonExtensions.map String.toList = [extPyi, extPy] ∧ Gen.pyExtensionsDerived = true := by decide
+
+/-- `find_sources_in_dir` (`mypy DIR`) and `find_modules_recursive` (`mypy -p`) skip the same names, the model's -/
+theorem gen_skip_names :
+    sameSet (Gen.skipSources.map String.toList) skipList = true ∧
+    sameSet (Gen.skipRecursive.map String.toList) skipList = true ∧
+    Gen.skipSourcesDot = true ∧ Gen.skipRecursiveDot = true := by decide
+
+theorem gen_init_files : sameSet (Gen.initFiles.map String.toList) [initPy, initPyi] = true := by decide
+
+/-- the suffix the crawl strips is the suffix `find_module` appends -/
+theorem gen_stubs_suffix :
+    Gen.stubsSuffixCrawl.toList = sStubs ∧ Gen.stubsSuffixFind.map String.toList = [sStubs] := by decide
 
 /-! ## the round trip -/
 
@@ -440,6 +464,21 @@ theorem no_found_twice_partial (fs : FS) (wf : fs.WF) (o : Opts) (fuel : Nat) (a
   refine ⟨hmod, ?_⟩
   have : importable s.module = true := by rw [hmod]; exact himp
   rw [modId_of_importable this, hmod]
+
+/-- the side condition `topOK` is needed: with namespace packages and no `__init__.py`, `b/x.py` is listed as module `x`
+    (base `b`), while `import b.x` from a file in the working directory finds the same file as `b.x` — mypy's
+    "Source file found twice under different module names" (the documented ambiguity, not a defect) -/
+def fsTwice : FS := FS.ofEntries [(pth ["w", "b", "x.py"], .file), (pth ["w", "main.py"], .file)]
+def oTwice : Opts := { ns := true, epb := false, mypyPath := [], cwd := pth ["w"] }
+
+theorem not_no_found_twice :
+    (match createSourceList fsTwice oTwice 8 [pth ["w", "b", "x.py"], pth ["w", "main.py"]] with
+     | .ok srcs =>
+        findModule fsTwice true (searchRoots oTwice srcs) (pth ["b", "x"]) == some (pth ["w", "b", "x.py"]) &&
+        srcs.any (fun s => s.path = pth ["w", "b", "x.py"] && s.module = pth ["x"]) &&
+        importable (pth ["b", "x"]) && goodRoots fsTwice oTwice && noInnerBase oTwice (searchRoots oTwice srcs) (pth ["b", "x"]) &&
+        !topOK fsTwice oTwice (searchRoots oTwice srcs) (pth ["b", "x"])
+     | .error _ => false) = true := by decide
 
 /-- F10 seen from `-p`: `find_modules_recursive("b")` makes the *directory* `b/a` the source of module `b.a` and never
     lists `b/a.pyi` -/
